@@ -4,18 +4,34 @@
 Require Import SF.Prelude SF.Dtype SF.Value SF.Blocks SF.PyDyn SF.Concat Gen.Gen_util.
 
 (* the order NumPy sorts labels by (one label kind per index in the generated cases) *)
-Definition lleb_val (a b : val) : bool :=
+Fixpoint lleb_val (a b : val) : bool :=
   match a, b with
   | VInt x, VInt y => x <=? y
   | VStr x, VStr y => String.leb x y
+  | VTup l1, VTup l2 =>                     (* rows of a hierarchical index: lexicographic *)
+      (fix go (x y : list val) : bool :=
+         match x, y with
+         | [], _ => true
+         | _ :: _, [] => false
+         | u :: us, v :: vs => if val_eqb u v then go us vs else lleb_val u v
+         end) l1 l2
   | _, _ => true
   end.
 
 (* storing a cell in an array of dtype d: an int becomes a float in a float array; every other
    (resolve_dtype-produced) target holds the cell unchanged *)
+Definition unit_secs (u : tunit) : Z :=
+  match u with UD => 86400 | Uh => 3600 | Um => 60 | Us => 1 | _ => 0 end.
+
 Definition cast_val (d : dtype) (v : val) : val :=
   match d, v with
   | DFlt _, VInt z => VFlt z 1
+  | DObj, VNaT => VNone                       (* NaT stored in an object array is None *)
+  | DObj, VTd u z => if 0 <? unit_secs u then VTd Us (z * unit_secs u) else v   (* datetime.timedelta: observed in seconds *)
+  | DTd u2, VTd u1 z =>
+      if (0 <? unit_secs u2) && (0 <? unit_secs u1) then VTd u2 (z * (unit_secs u1 / unit_secs u2)) else v
+  | DDt u2, VDt u1 z =>                       (* datetime64 to a finer unit (D, h, m, s) *)
+      if (0 <? unit_secs u2) && (0 <? unit_secs u1) then VDt u2 (z * (unit_secs u1 / unit_secs u2)) else v
   | _, _ => v
   end.
 
@@ -53,6 +69,9 @@ Definition cell_equiv (a b : val) : bool :=
   val_eqb a b ||
   match a, b with
   | VInt z, VFlt n d | VFlt n d, VInt z => n =? z * d
+  | VDt u1 z1, VDt u2 z2 => (0 <? unit_secs u1) && (0 <? unit_secs u2) && (z1 * unit_secs u1 =? z2 * unit_secs u2)   (* same instant *)
+  | VTd u1 z1, VTd u2 z2 => (0 <? unit_secs u1) && (0 <? unit_secs u2) && (z1 * unit_secs u1 =? z2 * unit_secs u2)   (* same duration *)
+  | VNaT, VNone | VNone, VNaT => true          (* NaT stored in an object array *)
   | _, _ => false
   end.
 Definition cells_equiv (a b : list val) : bool := list_eqb cell_equiv a b.
@@ -251,3 +270,10 @@ Definition SV_fillna_ok (t : tb val) (vals : list (dtype * list val)) (obs : tb 
     (map (fun cv : (dtype * list val) * (dtype * list val) =>
             map (fun xv : val * val => overlay_step isna (fst xv) (snd xv)) (combine (snd (fst cv)) (snd (snd cv))))
          (combine (flatten t) vals)).
+
+(* ------------------------------------------------------------------ kernel: vstack_blocks_to_blocks computing its own flags *)
+Definition MV_vstack_ok (ts : list (tb val)) (obs : tb val) : bool :=
+  list_eqb block_eqb (M_vstack cast_val resolve_val ts) obs.
+Definition SV_vstack_ok (ts : list (tb val)) (obs : tb val) : bool :=
+  list_eqb cells_equiv (map snd (flatten obs))
+    (map snd (S_vstack cast_val resolve_val (total_width (hd [] ts)) (map (@flatten val) ts))).
